@@ -5,6 +5,10 @@ use crate::rng::Rng;
 
 /// size in 1..=max biased to small values
 pub fn size(rng: &mut Rng, max: usize) -> usize {
+    // the `*_large` families: beyond the ordinary bound, up to 3.5 times as large
+    if crate::big() > 0 {
+        return rng.us(max + 1, max * 7 / 2);
+    }
     let r = rng.f();
     let hi = if r < 0.45 {
         6.min(max)
